@@ -45,6 +45,7 @@ var (
 	cR5Wild       = simrt.RegisterCounter("probe_r5_out_of_range_value")
 	cR5Rejected   = simrt.RegisterCounter("probe_r5_encoder_rejected")
 	cResolution   = simrt.RegisterCounter("op_wire_resolution_checks")
+	cNotJudged    = simrt.RegisterCounter("probe_functional_mismatch_not_judged")
 	cPipes        = simrt.RegisterCounter("op_frame_roundtrip")
 	cPropInStream = simrt.RegisterCounter("probe_proprietary_in_stream")
 	cFull15       = simrt.RegisterCounter("probe_fopts_15_bytes")
@@ -140,7 +141,7 @@ type history struct {
 func build(w *sim.World) {
 	modelReset()
 	nCodec := 2 + simrt.Choose(3)
-	nRegs := simrt.Choose(7)
+	nRegs := simrt.Choose(1 + 6*sim.Scale)
 	h := &history{gets: make([][]getOp, nCodec), decs: make([][]decOp, nCodec)}
 	opSeed := simrt.Raw()
 	w.Notef("W-REG: %d codec tasks, %d registrations", nCodec, nRegs)
@@ -156,7 +157,7 @@ func build(w *sim.World) {
 	}
 	for t := 0; t < nCodec; t++ {
 		t := t
-		n := 3 + simrt.Choose(12)
+		n := 3 + simrt.Choose(12*sim.Scale)
 		sub := simrt.Raw()
 		w.Spawn(fmt.Sprintf("codec%d", t), func() { codec(h, t, n, sub) })
 	}
@@ -398,14 +399,25 @@ func frameRoundTrip(h *history, id int, r *sim.Rand, up bool) {
 	g := genFor(up)
 	f := spec.GenFrame(r, up, [4]byte{1, 2, 3, byte(id)}, uint32(r.Intn(1<<16)), g, 242)
 	phy := f.ToLib()
+	hasCmds := len(f.FOpts) > 0 || len(f.FRMCmds) > 0
 	b, err := phy.MarshalBinary()
 	if err != nil {
-		simrt.Report("pipe.marshal", fmt.Sprintf("spec-valid frame %v refused: %v", f, err))
+		// a frame that carries a valid command sequence must encode; a frame
+		// without commands that fails to encode is another property's matter
+		if hasCmds {
+			simrt.Report("pipe.marshal", fmt.Sprintf("frame with spec-valid MAC commands %v refused: %v", f, err))
+		} else {
+			simrt.Count(cNotJudged)
+		}
 		return
 	}
 	var rx lorawan.PHYPayload
 	if err := rx.UnmarshalBinary(append([]byte(nil), b...)); err != nil {
-		simrt.Report("pipe.unmarshal", fmt.Sprintf("frame %v (%x) refused: %v", f, b, err))
+		if hasCmds {
+			simrt.Report("pipe.unmarshal", fmt.Sprintf("frame with MAC commands %v (%x) refused: %v", f, b, err))
+		} else {
+			simrt.Count(cNotJudged)
+		}
 		return
 	}
 	mp := rx.MACPayload.(*lorawan.MACPayload)
